@@ -419,6 +419,12 @@ impl RefSpec {
 
     /// Serialise. Returns the archive bytes.
     pub fn write(&self) -> Vec<u8> {
+        self.write_malformed(0)
+    }
+
+    /// `write`, except that the checksum sector of every file with `crc` lacks its last `crc_drop` entries
+    /// (a deliberately malformed archive for the totality check; 0 = well-formed)
+    pub fn write_malformed(&self, crc_drop: usize) -> Vec<u8> {
         let ss = 512usize << self.shift;
         let base = self.lead_units as usize * 512;
         let hsize: usize = if self.v2 { 44 } else { 32 };
@@ -526,6 +532,7 @@ impl RefSpec {
                     offs.push((tsize + body.len()) as u32);
                 }
                 if f.crc {
+                    sums.truncate(sums.len().saturating_sub(4 * crc_drop));
                     // checksum sector: compressed when smaller, never encrypted
                     let p = pack(0x02, &sums);
                     body.extend_from_slice(if p.len() < sums.len() { &p } else { &sums });
